@@ -678,6 +678,41 @@ func (a *factAnalysis) addAtomFacts(st *fstate, at atom, cond ast.Expr) {
 		}
 		// a fact and its opposite cannot both hold; a later test overrides
 		st.facts[fa.key] = fa
+		if fa.Kind == FCmp && fa.Tag == nil && fa.Expr != nil && len(fa.vars) > 0 {
+			// the same comparison written at several sites (before a loop and at its
+			// end) must survive the join: a semantic copy keyed by the expression's text
+			// and the identity of the variables in it
+			c := *fa
+			// an ordering / equality test is put into one canonical spelling first
+			// (operands in text order, the truth value folded into the operator), so that
+			// `max <= len(l)` false and `len(l) >= max` false are the same fact
+			if be, ok := ast.Unparen(fa.Expr).(*ast.BinaryExpr); ok {
+				mirror := map[token.Token]token.Token{token.EQL: token.EQL, token.NEQ: token.NEQ, token.LSS: token.GTR, token.GTR: token.LSS, token.LEQ: token.GEQ, token.GEQ: token.LEQ}
+				neg := map[token.Token]token.Token{token.EQL: token.NEQ, token.NEQ: token.EQL, token.LSS: token.GEQ, token.GEQ: token.LSS, token.GTR: token.LEQ, token.LEQ: token.GTR}
+				if _, isCmp := mirror[be.Op]; isCmp {
+					x, y, op := be.X, be.Y, be.Op
+					if types.ExprString(x) > types.ExprString(y) {
+						x, y, op = y, x, mirror[op]
+					}
+					if !fa.Truth {
+						op = neg[op]
+					}
+					c.Expr = &ast.BinaryExpr{X: x, OpPos: be.OpPos, Op: op, Y: y}
+					c.Truth = true
+				}
+			}
+			k := "sem:cmp:" + types.ExprString(c.Expr)
+			var ptrs []string
+			for _, v := range fa.vars {
+				ptrs = append(ptrs, fmt.Sprintf("%p", v))
+			}
+			sort.Strings(ptrs)
+			k += ":" + strings.Join(ptrs, ":")
+			c.key = k + fmt.Sprintf(":%v", c.Truth)
+			c.Sem = true
+			st.facts[c.key] = &c
+			delete(st.facts, k+fmt.Sprintf(":%v", !c.Truth))
+		}
 		if fa.Call != nil && fa.Kind != FHeld && fa.Kind != FCmp {
 			// the same check written at several sites (both arms of an if) must survive the
 			// join: a second, "semantic" copy keyed by callee + receiver/argument text
